@@ -1,1 +1,369 @@
-// verification harness include for event (see /verif/DESIGN.md)
+// Included at the end of /repo/src/sync/manual_reset_event.rs under cfg(futures_intrusive_verif).
+// ManualResetEvent harnesses: C14 (+ C01, C17 parts).
+
+pub(crate) mod verif_event {
+    use super::*;
+    use crate::verif::common::*;
+    use core::mem::ManuallyDrop;
+
+    macro_rules! oracle {
+        ($p:expr, $mask:expr, $cond:expr, $msg:literal) => {
+            if ($p & $mask) != 0 {
+                assert!($cond, $msg);
+            }
+        };
+    }
+
+    pub const K: usize = 3;
+    pub const W_SET_WAKES_TWO: u32 = 1; // set() with >= 2 pending waiters
+    pub const W_RESET_BEFORE_REPOLL: u32 = 2; // a latched waiter completed although reset() came before its re-poll
+    pub const W_SWAP_THEN_SET: u32 = 4; // waiter re-polled with the other waker, then woken through it
+
+    /// cfg bit 0-1: initial state 0 = reset, 1 = set, 2 = symbolic
+    pub fn hist<M: RawMutex, S: Src>(s: &mut S, cfg: u32, n: usize, p: u32) -> u32 {
+        let init = if cfg & 3 == 2 { s.flag() } else { cfg & 3 == 1 };
+        let ev = GenericManualResetEvent::<M>::new(init);
+        let (c0a, c0b, c1a, c1b, c2a, c2b) = (
+            WakeCell::new(), WakeCell::new(), WakeCell::new(),
+            WakeCell::new(), WakeCell::new(), WakeCell::new(),
+        );
+        let mut f0 = ManuallyDrop::new(ev.wait());
+        let mut f1 = ManuallyDrop::new(ev.wait());
+        let mut f2 = ManuallyDrop::new(ev.wait());
+        let mut is_set = init;
+        let mut alive = [true; K];
+        let mut pending = [false; K];
+        let mut latched = [false; K]; // a set() happened since the first poll
+        let mut done = [false; K];
+        let mut lw = [0u8; K];
+        let mut snap = [0u32; K];
+        let mut swapped = [false; K];
+        let mut reset_after_latch = [false; K];
+        let mut ever = [false; K];
+        let mut fresh = [true; K];
+        let mut bits = 0u32;
+        let mut step = 0;
+        while step < n && !s.exhausted() {
+            step += 1;
+            let op = s.below(11);
+            let before = [c0a.n(), c0b.n(), c1a.n(), c1b.n(), c2a.n(), c2b.n()];
+            if op < 6 {
+                let i = (op / 2) as usize;
+                let w = op % 2;
+                s.assume(!done[i]);
+                s.assume(i == 0 || ever[i - 1]); // slot symmetry
+                s.assume(!fresh[i] || w == 0); // waker symmetry
+                ever[i] = true;
+                let f = match i { 0 => &mut f0, 1 => &mut f1, _ => &mut f2 };
+                if !alive[i] {
+                    *f = ManuallyDrop::new(ev.wait());
+                    alive[i] = true;
+                    fresh[i] = true;
+                    oracle!(p, P17, !f.is_terminated(), "C17 event: fresh wait future reports terminated");
+                }
+                fresh[i] = false;
+                let cell = match (i, w) {
+                    (0, 0) => &c0a, (0, _) => &c0b,
+                    (1, 0) => &c1a, (1, _) => &c1b,
+                    (_, 0) => &c2a, (_, _) => &c2b,
+                };
+                let waker = ManuallyDrop::new(mk_waker(cell));
+                let mut cx = Context::from_waker(&waker);
+                let r = unsafe { Pin::new_unchecked(&mut **f) }.poll(&mut cx);
+                let expect_ready = if pending[i] { latched[i] } else { is_set };
+                match r {
+                    Poll::Ready(()) => {
+                        oracle!(p, P14, expect_ready, "C14 event: wait completed although the event was not set during the wait");
+                        if pending[i] && reset_after_latch[i] { bits |= W_RESET_BEFORE_REPOLL; }
+                        if pending[i] && swapped[i] { bits |= W_SWAP_THEN_SET; }
+                        pending[i] = false;
+                        done[i] = true;
+                    }
+                    Poll::Pending => {
+                        oracle!(p, P14, !expect_ready, "C14 event: wait did not complete although the event was set while it waited");
+                        if pending[i] && lw[i] != w { swapped[i] = true; }
+                        if !pending[i] { latched[i] = false; swapped[i] = false; reset_after_latch[i] = false; }
+                        pending[i] = true;
+                        lw[i] = w;
+                        snap[i] = cell.n();
+                    }
+                }
+            } else if op < 9 {
+                let i = (op - 6) as usize;
+                s.assume(alive[i] && (pending[i] || done[i]));
+                let f = match i { 0 => &mut f0, 1 => &mut f1, _ => &mut f2 };
+                unsafe { ManuallyDrop::drop(f) };
+                alive[i] = false;
+                pending[i] = false;
+                done[i] = false;
+            } else if op == 9 {
+                let np = pending[0] as u8 + pending[1] as u8 + pending[2] as u8;
+                let unl = (pending[0] && !latched[0]) as u8 + (pending[1] && !latched[1]) as u8 + (pending[2] && !latched[2]) as u8;
+                ev.set();
+                is_set = true;
+                let mut i = 0;
+                while i < K {
+                    if pending[i] { latched[i] = true; }
+                    i += 1;
+                }
+                if unl >= 2 { bits |= W_SET_WAKES_TWO; }
+                let _ = np;
+            } else {
+                ev.reset();
+                is_set = false;
+                let mut i = 0;
+                while i < K {
+                    if pending[i] && latched[i] { reset_after_latch[i] = true; }
+                    i += 1;
+                }
+            }
+            // ================= oracles after every operation =================
+            oracle!(p, P14, ev.is_set() == is_set, "C14 event: is_set() differs from the last set/reset");
+            let now = [c0a.n(), c0b.n(), c1a.n(), c1b.n(), c2a.n(), c2b.n()];
+            if op != 9 {
+                let mut j = 0;
+                while j < 6 {
+                    oracle!(p, P14, now[j] == before[j], "C14 event: a waker was woken by something else than set()");
+                    j += 1;
+                }
+            }
+            // every latched pending waiter has been woken through its latest waker since its last poll
+            let mut i = 0;
+            while i < K {
+                if pending[i] && latched[i] {
+                    let c = now[2 * i + lw[i] as usize];
+                    oracle!(p, P14, c > snap[i], "C14 event: set() did not wake a pending waiter through its latest waker");
+                }
+                i += 1;
+            }
+            if (p & P17) != 0 {
+                if alive[0] { assert!(f0.is_terminated() == done[0], "C17 event: is_terminated() differs from 'completed'"); }
+                if alive[1] { assert!(f1.is_terminated() == done[1], "C17 event: is_terminated() differs from 'completed'"); }
+                if alive[2] { assert!(f2.is_terminated() == done[2], "C17 event: is_terminated() differs from 'completed'"); }
+            }
+        }
+        s.reached(bits);
+        bits
+    }
+
+    #[no_mangle]
+    pub fn fi_verif_replay_event(name: &str, cfg: u32, p: u32, s: &mut ScriptSrc<'_>) -> bool {
+        match name {
+            "event_hist_noop" => { hist::<NoopLock, _>(s, cfg, 64, p); }
+            "event_hist_check" => { hist::<CheckLock, _>(s, cfg, 64, p); }
+            _ => return false,
+        }
+        true
+    }
+
+    // =====================================================================
+    // E-STEP. Inv_event: queue members = {Waiting}; is_set => queue empty; Waiting => stored waker = latest;
+    // state Done with `event` still Some = latched (woken by set(), not polled yet).
+    //   C01 owns membership/stored waker, C14 owns "is_set => nobody waiting" and the poll/set/reset outcomes.
+    // =====================================================================
+    #[cfg(kani)]
+    pub mod step {
+        use super::*;
+        type Node = ListNode<WaitQueueEntry>;
+        // 0 New, 1 Waiting, 2 Latched (Done, not yet observed), 3 Terminated
+        fn any_st() -> u8 { let x: u8 = kani::any(); kani::assume(x < 4); x }
+        fn obs<M: RawMutex>(f: &GenericWaitForEventFuture<'_, M>) -> u8 {
+            match (&f.wait_node.state, f.event.is_some()) {
+                (PollState::New, _) => 0,
+                (PollState::Waiting, _) => 1,
+                (PollState::Done, true) => 2,
+                (PollState::Done, false) => 3,
+            }
+        }
+        pub fn run<M: RawMutex>(p: u32) {
+            let set0: bool = kani::any();
+            let ev = GenericManualResetEvent::<M>::new(set0);
+            let (c0a, c0b, c1a, c1b, c2a, c2b) = (
+                WakeCell::new(), WakeCell::new(), WakeCell::new(),
+                WakeCell::new(), WakeCell::new(), WakeCell::new(),
+            );
+            let mut f0 = ManuallyDrop::new(ev.wait());
+            let mut f1 = ManuallyDrop::new(ev.wait());
+            let mut f2 = ManuallyDrop::new(ev.wait());
+            let st = [any_st(), any_st(), any_st()];
+            let lw: [bool; 3] = [kani::any(), kani::any(), kani::any()];
+            let r: [u8; 3] = [kani::any(), kani::any(), kani::any()];
+            kani::assume(r[0] < 3 && r[1] < 3 && r[2] < 3 && r[0] != r[1] && r[1] != r[2] && r[0] != r[2]);
+            // Inv: is_set => nobody waiting
+            if set0 { kani::assume(st[0] != 1 && st[1] != 1 && st[2] != 1); }
+            macro_rules! setup {
+                ($f:ident, $i:expr, $ca:expr, $cb:expr) => {
+                    match st[$i] {
+                        0 => {}
+                        1 => { $f.wait_node.state = PollState::Waiting; $f.wait_node.task = Some(if lw[$i] { mk_waker(&$ca) } else { mk_waker(&$cb) }); }
+                        2 => { $f.wait_node.state = PollState::Done; }
+                        _ => { $f.wait_node.state = PollState::Done; $f.event = None; }
+                    }
+                };
+            }
+            setup!(f0, 0, c0a, c0b);
+            setup!(f1, 1, c1a, c1b);
+            setup!(f2, 2, c2a, c2b);
+            {
+                let mut g = ev.inner.lock();
+                let mut k = 0u8;
+                while k < 3 {
+                    unsafe {
+                        if st[0] == 1 && r[0] == k { g.waiters.add_front(&mut f0.wait_node); }
+                        if st[1] == 1 && r[1] == k { g.waiters.add_front(&mut f1.wait_node); }
+                        if st[2] == 1 && r[2] == k { g.waiters.add_front(&mut f2.wait_node); }
+                    }
+                    k += 1;
+                }
+            }
+            let mut alive = [true; 3];
+            let mut polled = 3usize;
+            let mut polled_w = false;
+            let t: usize = kani::any();
+            kani::assume(t < 3);
+            let cls: u8 = kani::any();
+            kani::assume(cls < 4);
+            let mut exp_set = set0;
+            if cls == 0 {
+                kani::assume(st[t] != 3);
+                let f = match t { 0 => &mut f0, 1 => &mut f1, _ => &mut f2 };
+                let wa: bool = kani::any();
+                let cell = match (t, wa) {
+                    (0, true) => &c0a, (0, false) => &c0b,
+                    (1, true) => &c1a, (1, false) => &c1b,
+                    (_, true) => &c2a, (_, false) => &c2b,
+                };
+                let w = ManuallyDrop::new(mk_waker(cell));
+                let mut cx = Context::from_waker(&w);
+                let res = unsafe { Pin::new_unchecked(&mut **f) }.poll(&mut cx);
+                polled = t;
+                polled_w = wa;
+                let expect_ready = match st[t] { 0 => set0, 1 => false, _ => true };
+                oracle!(p, P14, res.is_ready() == expect_ready, "C14 event step: poll outcome differs from 'set at a poll or set since the first poll'");
+            } else if cls == 1 {
+                let f = match t { 0 => &mut f0, 1 => &mut f1, _ => &mut f2 };
+                unsafe { ManuallyDrop::drop(f) };
+                alive[t] = false;
+            } else if cls == 2 {
+                ev.set();
+                exp_set = true;
+            } else {
+                ev.reset();
+                exp_set = false;
+            }
+            let t2 = [obs(&f0), obs(&f1), obs(&f2)];
+            let cells_a = [&c0a, &c1a, &c2a];
+            let cells_b = [&c0b, &c1b, &c2b];
+            oracle!(p, P14, ev.is_set() == exp_set, "C14 event step: is_set() differs from the last set/reset");
+            let mut i = 0;
+            while i < 3 {
+                if alive[i] {
+                    if exp_set { oracle!(p, P14, t2[i] != 1, "C14 event step: a future is still waiting although the event is set"); }
+                    if cls == 2 && st[i] == 1 {
+                        let c = if lw[i] { cells_a[i] } else { cells_b[i] };
+                        oracle!(p, P14, t2[i] == 2 && c.n() == 1, "C14 event step: set() did not complete and wake a waiting future through its latest waker");
+                    }
+                    if cls == 3 || cls == 1 || (cls == 0 && i != t) {
+                        // reset / drop / someone else's poll leave this future's state untouched
+                        if !(cls == 1 && i == t) {
+                            oracle!(p, P14, t2[i] == st[i], "C14 event step: an unrelated operation changed a future's wait state");
+                        }
+                    }
+                }
+                if cls != 2 {
+                    oracle!(p, P14, cells_a[i].n() == 0 && cells_b[i].n() == 0, "C14 event step: a waker was woken by something else than set()");
+                }
+                i += 1;
+            }
+            if (p & P01) != 0 {
+                let g = ev.inner.lock();
+                let nodes: [*const Node; 3] = [&f0.wait_node, &f1.wait_node, &f2.wait_node];
+                let len = g.waiters.verif_len_checked(3);
+                assert!(len.is_some(), "C01 event step: wait queue links are inconsistent");
+                let mut cnt = 0usize;
+                i = 0;
+                while i < 3 {
+                    let should = alive[i] && t2[i] == 1;
+                    let pos = g.waiters.verif_pos_from_tail(nodes[i], 3);
+                    assert!(pos.is_some() == should, "C01 event step: wait queue membership differs from {alive and waiting}");
+                    let nd = unsafe { &*nodes[i] };
+                    if !should { assert!(nd.verif_unlinked(), "C01 event step: a future outside the queue still carries links"); }
+                    if should {
+                        cnt += 1;
+                        let lwc: &WakeCell = if i == polled { if polled_w { cells_a[i] } else { cells_b[i] } }
+                                             else if lw[i] { cells_a[i] } else { cells_b[i] };
+                        let ok = match &nd.task { Some(w) => w.will_wake(&ManuallyDrop::new(mk_waker(lwc))), None => false };
+                        assert!(ok, "C01 event step: waiting future does not store the waker of its latest poll");
+                    }
+                    i += 1;
+                }
+                assert!(len == Some(cnt), "C01 event step: wait queue holds a node that is not a live waiting future");
+            }
+            if (p & P17) != 0 {
+                if alive[0] { assert!(f0.is_terminated() == (t2[0] == 3), "C17 event step: is_terminated() differs from 'completed'"); }
+                if alive[1] { assert!(f1.is_terminated() == (t2[1] == 3), "C17 event step: is_terminated() differs from 'completed'"); }
+                if alive[2] { assert!(f2.is_terminated() == (t2[2] == 3), "C17 event step: is_terminated() differs from 'completed'"); }
+            }
+            kani::cover!(cls == 2 && st[0] == 1 && st[1] == 1, "W event step: set() with two waiting futures");
+            kani::cover!(cls == 0 && st[t] == 2 && !set0, "W event step: latched future completes after reset");
+        }
+        pub fn base<M: RawMutex>() {
+            let set0: bool = kani::any();
+            let ev = GenericManualResetEvent::<M>::new(set0);
+            let f0 = ManuallyDrop::new(ev.wait());
+            assert!(ev.is_set() == set0, "C14 event base: fresh event reports the wrong state");
+            assert!(obs(&f0) == 0 && f0.wait_node.verif_unlinked() && f0.wait_node.task.is_none(), "C01 event base: fresh future not New/unlinked");
+            assert!(!f0.is_terminated(), "C17 event base: fresh future reports terminated");
+            let g = ev.inner.lock();
+            assert!(g.waiters.verif_len_checked(1) == Some(0), "C01 event base: fresh event has a non-empty queue");
+        }
+    }
+
+    #[cfg(kani)]
+    mod proofs {
+        use super::*;
+        macro_rules! hist_proof {
+            ($name:ident, $lock:ty, $n:expr, $p:expr, $unw:expr) => {
+                #[kani::proof]
+                #[kani::unwind($unw)]
+                fn $name() {
+                    let bits = hist::<$lock, _>(&mut KaniSrc, 2, $n, $p);
+                    kani::cover!(bits & W_SET_WAKES_TWO != 0, "W set wakes two waiters");
+                }
+            };
+        }
+        hist_proof!(hist_c14_n4, NoopLock, 4, P14, 7);
+        hist_proof!(hist_c14_n5, NoopLock, 5, P14, 7);
+        hist_proof!(hist_c14_n6, NoopLock, 6, P14, 8);
+        hist_proof!(hist_c14_n7, NoopLock, 7, P14, 9);
+        hist_proof!(hist_c14_n8, NoopLock, 8, P14, 10);
+        hist_proof!(hist_c14_n6_check, CheckLock, 6, P14, 8);
+        hist_proof!(hist_c17_n5, NoopLock, 5, P17, 7);
+        hist_proof!(hist_c17_n7, NoopLock, 7, P17, 9);
+        hist_proof!(hist_c01_n5, NoopLock, 5, P01, 7);
+        hist_proof!(hist_c01_n5_check, CheckLock, 5, P01, 7);
+
+        #[kani::proof]
+        #[kani::unwind(7)]
+        fn step_c14() { step::run::<NoopLock>(P14) }
+        #[kani::proof]
+        #[kani::unwind(7)]
+        fn step_c01() { step::run::<NoopLock>(P01) }
+        #[kani::proof]
+        #[kani::unwind(7)]
+        fn step_c01_check() { step::run::<CheckLock>(P01) }
+        #[kani::proof]
+        #[kani::unwind(7)]
+        fn step_c17() { step::run::<NoopLock>(P17) }
+        #[kani::proof]
+        #[kani::unwind(7)]
+        fn step_base() { step::base::<NoopLock>() }
+
+        #[kani::proof]
+        #[kani::unwind(8)]
+        fn witness_reset_n6() {
+            let bits = hist::<NoopLock, _>(&mut KaniSrc, 2, 6, 0);
+            assert!(bits & W_RESET_BEFORE_REPOLL == 0, "WITNESS reached");
+        }
+    }
+}
